@@ -122,6 +122,11 @@ func (c *Ctx) candidateSigs(valid, hpoint []byte, nFlips int) map[string][][]byt
 		t := askBytes(fmt.Sprintf("e1 torsion %d", i))
 		add("plus-torsion", askBytes("e1 add "+hx(valid)+" "+hx(t)))
 	}
+	// torsion points of small order (3, 3, 11, 10177): a random blinding factor kills them with noticeable probability
+	for i := 100; i < 104; i++ {
+		t := askBytes(fmt.Sprintf("e1 torsion %d", i))
+		add("plus-small-torsion", askBytes("e1 add "+hx(valid)+" "+hx(t)))
+	}
 	add("plus-offgroup", askBytes("e1 add "+hx(valid)+" "+hx(askBytes("e1 off 0"))))
 	add("plus-delta-in-g1", askBytes("e1 add "+hx(valid)+" "+hx(hpoint)))
 	add("hash-point-itself", hpoint)
